@@ -51,6 +51,11 @@ type JobResult struct {
 
 type Baseline struct {
 	Obligations map[string]map[string]string `json:"obligations"` // property -> name -> status
+	// Shapes: property -> function -> hash of its SSA with all variable names
+	// erased (shape.go). A contract that names an identifier the function no
+	// longer has is treated as stale (undecided, no alarm) only when the shape
+	// is unchanged, i.e. the edit was a pure rename.
+	Shapes map[string]map[string]string `json:"shapes,omitempty"`
 }
 
 func loadBaseline() *Baseline {
@@ -266,7 +271,7 @@ func (ctx *checkCtx) runSymbolic() *JobResult {
 			if o.Status != "proved" {
 				rec.Detail = firstLines(o.Output, 4)
 			}
-			if len(r.Stale) > 0 && o.Status != "proved" && !o.Cover {
+			if len(r.Stale) > 0 && o.Status != "proved" && !o.Cover && ctx.pureRename(r.Key) {
 				rec.Stale = strings.Join(r.Stale, ", ")
 				rec.Status = "unknown"
 				rec.Detail = "stale contract: it names " + rec.Stale + ", which " + r.Key + " does not have (renamed?); " + rec.Detail
@@ -286,6 +291,17 @@ func (ctx *checkCtx) runSymbolic() *JobResult {
 		}
 	}
 	return jr
+}
+
+// pureRename: the function has exactly the shape it had when the baseline was
+// taken - whatever the contract can no longer name was renamed, not removed.
+func (ctx *checkCtx) pureRename(key string) bool {
+	fn := ctx.ld.Funcs[key]
+	if fn == nil {
+		return false
+	}
+	was := loadBaseline().Shapes[ctx.prop][key]
+	return was != "" && was == shapeOf(fn)
 }
 
 func uniq(xs []string) []string {
@@ -540,6 +556,16 @@ func (ctx *checkCtx) report(total *JobResult, update, verbose bool, start time.T
 			}
 		}
 		base.Obligations[ctx.prop] = np
+		if base.Shapes == nil {
+			base.Shapes = map[string]map[string]string{}
+		}
+		sh := map[string]string{}
+		for _, fr := range ctx.funcResults {
+			if fn := ctx.ld.Funcs[fr.Key]; fn != nil {
+				sh[fr.Key] = shapeOf(fn)
+			}
+		}
+		base.Shapes[ctx.prop] = sh
 		data, _ := json.MarshalIndent(base, "", " ")
 		os.WriteFile(verifDir()+"/baseline_obligations.json", append(data, '\n'), 0644)
 	}
